@@ -87,8 +87,11 @@ def optimal_grouping(R, L, h, p):
     p = numpy.asarray(p, dtype=float)
     N = len(p)
 
-    # set initial best grouping to be (approx) equal splits 
-    gamma_best = numpy.linspace(0,N,L+1,dtype=int)[1:-1]
+    # set initial best grouping to be (approx) equal splits. A split value is the
+    # LAST index of a group, so k*N/L (the first index of the next group) has to
+    # be moved back by one: without it N = 6, L = 3 starts from groups of 3, 2
+    # and 1 layers, and the descent can end above the cost of the equal split
+    gamma_best = numpy.linspace(0,N,L+1,dtype=int)[1:-1] - 1
     gamma_best, G_best = _optGroupingMinimization(gamma_best, h, p)
     for r in range(R):
         gamma_new, G_new = _optGroupingMinimization(_random_grouping(N,L), h, p)
